@@ -259,3 +259,23 @@ def c17(work, tier, seed, replay):
     return dict(violations=viol, coverage=cov, assumptions=ASSUME_CODEC[:1] + [
         "a zero-length option value decoded from the wire is stored as nil and reads as 'absent' through the accessors; the generator goes through the wire",
         "duration accessors are called with a default of 1.5 s, which no whole-second value can equal"])
+
+
+@prop("C16")
+def c16(work, tier, seed, replay):
+    if replay:
+        return replay_file(work, "Trace_Dhcp6Build", replay)
+    vh = common.build_vh(work)
+    mc = common.require_mc(common.tlc(work, "MC_Dhcp6Build", cfg="MC_Dhcp6Build" + ("_thorough" if tier == "thorough" else ""), workers=8, timeout=2400, heap="8g"), "MC_Dhcp6Build")
+    tr, stats = common.vh_gen(work, vh, "c16", seed, tier)
+    viol, tstates, n = validate(work, "Trace_Dhcp6Build", tr, stats, procs=8 if tier == "quick" else 12)
+    cov = codec_coverage([mc], stats, tstates, n,
+                         "inner messages of every type with any subset (and duplicates, in any order) of client id, server id, IA_NA, IA_PD, rapid "
+                         "commit, vendor class; relay chains of depth 1..16 with arbitrary link/peer addresses, any subset of interface-id / "
+                         "remote-id per level (duplicates, options in front of the relay-message option), half of them after a trip over the "
+                         "wire, chains lacking the relay-message option; every EncapsulateRelay, DecapsulateRelay(Index), GetInnerMessage, "
+                         "NewRelayReplFromRelayForw, NewAdvertiseFromSolicit, NewRequestFromAdvertise, NewReplyFromMessage call recorded with its "
+                         "result; non-trivial = all; distinct by function + input encoding + arguments", False)
+    return dict(violations=viol, coverage=cov, assumptions=ASSUME_CODEC[:1] + [
+        "the transaction id NewRequestFromAdvertise draws at random is taken from the observed result",
+        "inputs and results are compared as the value trees of Dhcp6Wire.tla (projection of typed fields)"])
